@@ -51,7 +51,7 @@ theorem C20_tie_submit_guards : avsSubmitGuards = [
   ("", "err != nil || task.TaskContractAddress == \"\"", "Wrap(types.ErrTaskIsNotExists)"),
   ("", "!found", "Wrap(types.ErrEpochNotFound)"),
   ("types.TwoPhaseCommitOne", "k.IsExistTaskResultInfo(ctx, info.OperatorAddress, info.TaskContractAddress, info.TaskId)", "Wrap(types.ErrResAlreadyExists)"),
-  ("types.TwoPhaseCommitOne", "info.BlsSignature == nil", "Wrap(types.ErrParamNotEmptyError)"),
+  ("types.TwoPhaseCommitOne", "len(info.BlsSignature) == 0", "Wrap(types.ErrParamNotEmptyError)"),
   ("types.TwoPhaseCommitOne", "info.TaskResponseHash != \"\" || info.TaskResponse != nil", "Wrap(types.ErrParamNotEmptyError)"),
   ("types.TwoPhaseCommitOne", "epoch.CurrentEpoch > int64(task.StartingEpoch)+int64(task.TaskResponsePeriod)", "Wrap(types.ErrSubmitTooLateError)"),
   ("types.TwoPhaseCommitOne", "true", "nil"),
@@ -66,7 +66,7 @@ theorem C20_tie_submit_guards : avsSubmitGuards = [
 
 theorem C20_tie_challenge_guards : avsChallengeGuards = [
   ("", "err != nil", "fmt.Errorf"),
-  ("", "hex.EncodeToString(taskInfo.Hash) != hex.EncodeToString(params.TaskHash)", "Wrap(err)"),
+  ("", "hex.EncodeToString(taskInfo.Hash) != hex.EncodeToString(params.TaskHash)", "Wrap(types.ErrHashValue)"),
   ("", "err != nil", "fmt.Errorf"),
   ("", "err != nil", "Wrap(err)"),
   ("", "err != nil || res.TaskId != params.TaskID || hex.EncodeToString(hash[:]) != hex.EncodeToString(params.TaskResponseHash)", "Wrap(types.ErrInconsistentParams)"),
@@ -145,11 +145,12 @@ theorem C20_tie_by_task_addr_guards : avsByTaskAddrGuards = [
 theorem C20_tie_task_id_guards : avsTaskIDGuards = [
   ("", "true", "id")] := rfl
 
-/-- the epoch hook: a result counts as signed iff its signature is non-nil, and NO error branch
-leaves the iteration (the errors of GetTaskInfo & co. are logged and ignored — F-11b) -/
-theorem C20_tie_hook_guards : avsHookGuards = [("len(taskResList) != 0", false), ("res.BlsSignature != nil", false), ("avsAddr == \"\"", false), ("taskID == 0", false), ("taskAddr == \"\"", false), ("err != nil || power.ActiveUSDValue.IsNegative()", false), ("err != nil", false), ("err != nil || taskPowerTotal.IsZero() || operatorPowerTotal.IsZero()", false), ("!taskPowerTotal.IsZero() && !operatorPowerTotal.IsZero()", false), ("err != nil", false)] := rfl
+/-- the epoch hook: a result counts as signed iff its signature is non-nil; a group without a
+signed result and a failing GetTaskInfo leave the iteration (`continue`, repair of F-11b), the
+other error branches only log -/
+theorem C20_tie_hook_guards : avsHookGuards = [("len(taskResList) != 0", true), ("res.BlsSignature != nil", false), ("avsAddr == \"\"", false), ("taskID == 0", false), ("taskAddr == \"\"", false), ("err != nil || power.ActiveUSDValue.IsNegative()", false), ("len(signedOperatorList) == 0", true), ("err != nil || taskInfo == nil", true), ("err != nil || taskPowerTotal.IsZero() || operatorPowerTotal.IsZero()", false), ("!taskPowerTotal.IsZero() && !operatorPowerTotal.IsZero()", false), ("err != nil", false)] := rfl
 
-/-- types.Difference is the symmetric difference the model transcribes (F-20c) -/
+/-- types.Difference is the symmetric difference the model keeps as `difference` (no longer used by the hook) -/
 theorem C20_tie_difference : avsDifferenceBody = "{ var different []string diffMap := make(map[string]bool) for _, item := range a { diffMap[item] = true } for _, item := range b { if diffMap[item] { delete(diffMap, item) } else { different = append(different, item) } } for item := range diffMap { different = append(different, item) } sort.Strings(different) return different }" := rfl
 
 /-- GetTaskID: first identifier 1, then +1, counter written back -/
@@ -162,9 +163,15 @@ theorem C20_tie_group_body : avsGroupBody = "{ taskMap := make(map[string][]type
 theorem C20_tie_stat_due_body : avsStatDueBody = "{ var taskResList []types.TaskResultInfo k.IterateResultInfo(ctx, func(_ int64, info types.TaskResultInfo) (stop bool) { avsInfo := k.GetAVSInfoByTaskAddress(ctx, info.TaskContractAddress) taskInfo, err := k.GetTaskInfo(ctx, strconv.FormatUint(info.TaskId, 10), info.TaskContractAddress) if err != nil { return false } if epochIdentifier == avsInfo.EpochIdentifier && epochNumber == int64(taskInfo.StartingEpoch)+int64(taskInfo.TaskResponsePeriod)+int64(taskInfo.TaskStatisticalPeriod) { taskResList = append(taskResList, info) } return false }) return taskResList }" := rfl
 
 /-- AfterEpochEnd: the whole statistics loop (signers, powers, Difference, totals, threshold, SetTaskInfo; errors logged and ignored) -/
-theorem C20_tie_hook_body : avsHookBody = "{ taskResList := wrapper.keeper.GetTaskStatisticalEpochEndAVSs(ctx, epochIdentifier, epochNumber) if len(taskResList) != 0 { groupedTasks := wrapper.keeper.GroupTasksByIDAndAddress(taskResList) for _, value := range groupedTasks { var signedOperatorList []string var taskID uint64 var taskAddr string var avsAddr string var operatorPowers []*types.OperatorActivePowerInfo operatorPowerTotal := sdkmath.LegacyNewDec(0) for _, res := range value { if res.BlsSignature != nil { signedOperatorList = append(signedOperatorList, res.OperatorAddress) if avsAddr == \"\" { avsInfo := wrapper.keeper.GetAVSInfoByTaskAddress(ctx, res.TaskContractAddress) avsAddr = avsInfo.AvsAddress } if taskID == 0 { taskID = res.TaskId } if taskAddr == \"\" { taskAddr = res.TaskContractAddress } power, err := wrapper.keeper.operatorKeeper.GetOperatorOptedUSDValue(ctx, avsAddr, res.OperatorAddress) if err != nil || power.ActiveUSDValue.IsNegative() { ctx.Logger().Error(\"Failed to update task result statistics,GetOperatorOptedUSDValue call failed!\", \"task result\", taskAddr, \"error\", err) } operatorSelfPower := &types.OperatorActivePowerInfo{ OperatorAddr: res.OperatorAddress, SelfActivePower: power.ActiveUSDValue, } operatorPowers = append(operatorPowers, operatorSelfPower) operatorPowerTotal = operatorPowerTotal.Add(power.ActiveUSDValue) } } taskInfo, err := wrapper.keeper.GetTaskInfo(ctx, strconv.FormatUint(taskID, 10), taskAddr) if err != nil { ctx.Logger().Error(\"Failed to update task result statistics,GetTaskInfo call failed!\", \"task result\", taskAddr, \"error\", err) } diff := types.Difference(taskInfo.OptInOperators, signedOperatorList) taskInfo.SignedOperators = signedOperatorList taskInfo.NoSignedOperators = diff taskInfo.OperatorActivePower = &types.OperatorActivePowerList{OperatorPowerList: operatorPowers} taskPowerTotal, err := wrapper.keeper.operatorKeeper.GetAVSUSDValue(ctx, avsAddr) if err != nil || taskPowerTotal.IsZero() || operatorPowerTotal.IsZero() { ctx.Logger().Error(\"Failed to update task result statistics,GetAVSUSDValue call failed!\", \"task result\", taskAddr, \"error\", err) } taskInfo.TaskTotalPower = taskPowerTotal if !taskPowerTotal.IsZero() && !operatorPowerTotal.IsZero() { actualThreshold := taskPowerTotal.Quo(operatorPowerTotal).Mul(sdk.NewDec(100)) taskInfo.ActualThreshold = actualThreshold.BigInt().Uint64() } err = wrapper.keeper.SetTaskInfo(ctx, taskInfo) if err != nil { ctx.Logger().Error(\"Failed to update task result statistics,SetTaskInfo call failed!\", \"task result\", taskAddr, \"error\", err) } } } }" := rfl
+theorem C20_tie_hook_body : avsHookBody = "{ taskResList := wrapper.keeper.GetTaskStatisticalEpochEndAVSs(ctx, epochIdentifier, epochNumber) if len(taskResList) != 0 { groupedTasks := wrapper.keeper.GroupTasksByIDAndAddress(taskResList) for _, value := range groupedTasks { var signedOperatorList []string var taskID uint64 var taskAddr string var avsAddr string var operatorPowers []*types.OperatorActivePowerInfo operatorPowerTotal := sdkmath.LegacyNewDec(0) for _, res := range value { if res.BlsSignature != nil { signedOperatorList = append(signedOperatorList, res.OperatorAddress) if avsAddr == \"\" { avsInfo := wrapper.keeper.GetAVSInfoByTaskAddress(ctx, res.TaskContractAddress) avsAddr = avsInfo.AvsAddress } if taskID == 0 { taskID = res.TaskId } if taskAddr == \"\" { taskAddr = res.TaskContractAddress } power, err := wrapper.keeper.operatorKeeper.GetOperatorOptedUSDValue(ctx, avsAddr, res.OperatorAddress) if err != nil || power.ActiveUSDValue.IsNegative() { ctx.Logger().Error(\"Failed to update task result statistics,GetOperatorOptedUSDValue call failed!\", \"task result\", taskAddr, \"error\", err) } operatorSelfPower := &types.OperatorActivePowerInfo{ OperatorAddr: res.OperatorAddress, SelfActivePower: power.ActiveUSDValue, } operatorPowers = append(operatorPowers, operatorSelfPower) operatorPowerTotal = operatorPowerTotal.Add(power.ActiveUSDValue) } } if len(signedOperatorList) == 0 { ctx.Logger().Error(\"Failed to update task result statistics, no signed result in the group\") continue } taskInfo, err := wrapper.keeper.GetTaskInfo(ctx, strconv.FormatUint(taskID, 10), taskAddr) if err != nil || taskInfo == nil { ctx.Logger().Error(\"Failed to update task result statistics,GetTaskInfo call failed!\", \"task result\", taskAddr, \"error\", err) continue } taskInfo.SignedOperators = signedOperatorList taskInfo.NoSignedOperators = types.Subtract(taskInfo.OptInOperators, signedOperatorList) taskInfo.OperatorActivePower = &types.OperatorActivePowerList{OperatorPowerList: operatorPowers} taskPowerTotal, err := wrapper.keeper.operatorKeeper.GetAVSUSDValue(ctx, avsAddr) if err != nil || taskPowerTotal.IsZero() || operatorPowerTotal.IsZero() { ctx.Logger().Error(\"Failed to update task result statistics,GetAVSUSDValue call failed!\", \"task result\", taskAddr, \"error\", err) } taskInfo.TaskTotalPower = taskPowerTotal if !taskPowerTotal.IsZero() && !operatorPowerTotal.IsZero() { actualThreshold := taskPowerTotal.Quo(operatorPowerTotal).Mul(sdk.NewDec(100)) taskInfo.ActualThreshold = actualThreshold.BigInt().Uint64() } err = wrapper.keeper.SetTaskInfo(ctx, taskInfo) if err != nil { ctx.Logger().Error(\"Failed to update task result statistics,SetTaskInfo call failed!\", \"task result\", taskAddr, \"error\", err) } } } }" := rfl
 
 /-- MsgSubmitTaskResult is SetTaskResultInfo(req.FromAddress, req.Info) and nothing else -/
 theorem C20_tie_msg_submit_body : avsMsgSubmitBody = "{ ctx := sdk.UnwrapSDKContext(goCtx) if err := m.keeper.SetTaskResultInfo(ctx, req.FromAddress, req.Info); err != nil { return nil, err } return &types.SubmitTaskResultResponse{}, nil }" := rfl
+
+/-- types.Subtract is the one-sided difference the hook now uses for the non-signers (repair of F-20c) -/
+theorem C20_tie_subtract_body : avsSubtractBody = "{ var rest []string exclude := make(map[string]struct{}, len(b)) for _, item := range b { exclude[item] = struct{}{} } seen := make(map[string]struct{}, len(a)) for _, item := range a { if _, found := exclude[item]; found { continue } if _, dup := seen[item]; dup { continue } seen[item] = struct{}{} rest = append(rest, item) } sort.Strings(rest) return rest }" := rfl
+
+/-- GetAVSMinimumSelfDelegation builds the Dec from the uint64 through big.Int, no int64() (repair of F-20a) -/
+theorem C20_tie_min_self_body : avsMinSelfBody = "{ avsInfo, err := k.GetAVSInfo(ctx, avsAddr) if err != nil { return sdkmath.LegacyNewDec(0), errorsmod.Wrap(err, fmt.Sprintf(\"GetAVSMinimumSelfDelegation: key is %s\", avsAddr)) } return sdkmath.LegacyNewDecFromBigInt(new(big.Int).SetUint64(avsInfo.Info.MinSelfDelegation)), nil }" := rfl
 
 end ExoVerif.Avs
